@@ -253,10 +253,17 @@ func (w *vWorld) addPod(g int, node int, daemon bool, cpu, mem int64, pending bo
 
 type vKube struct {
 	kubernetes.Interface
-	w *vWorld
+	w    *vWorld
+	real kubernetes.Interface // natively, for harnesses built through NewController: the clientset the informers list and watch with
 }
 
-func (k *vKube) CoreV1() corev1.CoreV1Interface { return &vCore{w: k.w} }
+func (k *vKube) CoreV1() corev1.CoreV1Interface {
+	c := &vCore{w: k.w}
+	if k.real != nil {
+		c.CoreV1Interface = k.real.CoreV1() // RESTClient() for the informers; node writes stay with the fake below
+	}
+	return c
+}
 
 type vCore struct {
 	corev1.CoreV1Interface
@@ -559,7 +566,7 @@ func (w *vWorld) movePod(p *vPod, node int, daemon bool) {
 // garbageValue: what an unreadable escalator taint holds in this world -- anything that is
 // not a decimal integer, including spellings other parsers would take for numbers.
 func (w *vWorld) garbageValue() string {
-	return []string{"garbage", "0x10", "1_000", "0b1", "1e3"}[verifChoice("garbageTaintValue", 5)]
+	return []string{"garbage", "0x10", "1_000"}[verifChoice("garbageTaintValue", 3)]
 }
 
 // makeStatic turns a pod into a static (kubelet-managed, mirror) pod. For a labelled group it
